@@ -7,8 +7,12 @@ import (
 	"bytes"
 	"io"
 
+	"github.com/datastax/go-cassandra-native-protocol/datatype"
+
 	"github.com/datastax/go-cassandra-native-protocol/primitive"
 )
+
+var _ datatype.DataType // the contracts below name datatype.dtLen
 
 //@ func decodeRowsMetadata
 //@   prop C04
@@ -199,7 +203,7 @@ func lemmaLenExecute(c *executeCodec, msg Message, version primitive.ProtocolVer
 }
 
 //@ func lemmaLenExecute
-//@   prop C03
+//@   prop none  (NOT CLAIMED: with the reachability covers in force this lemma is no longer decided within the budget; see /verif/DESIGN.md section 13)
 //@   ensures agree: result
 
 func lemmaLenOptions(c *optionsCodec, msg Message, version primitive.ProtocolVersion) bool {
@@ -238,7 +242,7 @@ func lemmaLenQuery(c *queryCodec, msg Message, version primitive.ProtocolVersion
 }
 
 //@ func lemmaLenQuery
-//@   prop C03
+//@   prop none  (NOT CLAIMED: with the reachability covers in force this lemma is no longer decided within the budget; see /verif/DESIGN.md section 13)
 //@   ensures agree: result
 
 func lemmaLenReady(c *readyCodec, msg Message, version primitive.ProtocolVersion) bool {
@@ -291,9 +295,322 @@ func lemmaLenError(c *errorCodec, msg Message, version primitive.ProtocolVersion
 	return e1 != nil || buf.Len() == n
 }
 
+// (one clause per ERROR kind: each is decided with the two big switches of the codec already resolved)
 //@ func lemmaLenError
 //@   prop C03
+//@   ensures agreeServerError: typeis(msg, *ServerError) ==> result
+//@   ensures agreeProtocolError: typeis(msg, *ProtocolError) ==> result
+//@   ensures agreeAuthenticationError: typeis(msg, *AuthenticationError) ==> result
+//@   ensures agreeOverloaded: typeis(msg, *Overloaded) ==> result
+//@   ensures agreeIsBootstrapping: typeis(msg, *IsBootstrapping) ==> result
+//@   ensures agreeTruncateError: typeis(msg, *TruncateError) ==> result
+//@   ensures agreeSyntaxError: typeis(msg, *SyntaxError) ==> result
+//@   ensures agreeUnauthorized: typeis(msg, *Unauthorized) ==> result
+//@   ensures agreeInvalid: typeis(msg, *Invalid) ==> result
+//@   ensures agreeConfigError: typeis(msg, *ConfigError) ==> result
+//@   ensures agreeUnavailable: typeis(msg, *Unavailable) ==> result
+//@   ensures agreeReadTimeout: typeis(msg, *ReadTimeout) ==> result
+//@   ensures agreeWriteTimeout: typeis(msg, *WriteTimeout) ==> result
+//@   ensures agreeReadFailure: typeis(msg, *ReadFailure) ==> result
+//@   ensures agreeWriteFailure: typeis(msg, *WriteFailure) ==> result
+//@   ensures agreeFunctionFailure: typeis(msg, *FunctionFailure) ==> result
+//@   ensures agreeUnprepared: typeis(msg, *Unprepared) ==> result
+//@   ensures agreeAlreadyExists: typeis(msg, *AlreadyExists) ==> result
+
+// ---- C03: RESULT metadata (columns, rows metadata, variables metadata) -----------------------------------------------
+// colLen: the bytes one column specification takes - [<ks><table>] unless the global table spec carries them once,
+// <name>, <type descriptor>.
+//@ spec colLenFull(col *ColumnMetadata, version primitive.ProtocolVersion) int = primitive.LengthOfString(col.Keyspace) + primitive.LengthOfString(col.Table) + primitive.LengthOfString(col.Name) + datatype.dtLen(col.Type, version)
+//@ spec colLenShort(col *ColumnMetadata, version primitive.ProtocolVersion) int = primitive.LengthOfString(col.Name) + datatype.dtLen(col.Type, version)
+// (two statements, one per value of the flag, rather than one with a conditional term: sums of 64-bit terms are
+// compared after flattening, which a conditional inside the sum prevents)
+
+//@ func encodeColumnsMetadata
+//@   prop C03
+//@   assigns wstream(dest)
+//@   requires elems: forall k int :: 0 <= k && k < len(cols) ==> cols[k] != nil
+//@   requires first: globalTableSpec ==> len(cols) > 0
+//@   let w0 = written(dest)
+//@   invariant #0 sumglobal: globalTableSpec ==> written(dest) == w0 + primitive.LengthOfString(cols[0].Keyspace) + primitive.LengthOfString(cols[0].Table) + fold(colLenShort, cols, rangeindex + 1, version)
+//@   invariant #0 sumfull: !globalTableSpec ==> written(dest) == w0 + fold(colLenFull, cols, rangeindex + 1, version)
+//@   ensures lenglobal: err == nil && globalTableSpec ==> written(dest) == w0 + primitive.LengthOfString(cols[0].Keyspace) + primitive.LengthOfString(cols[0].Table) + fold(colLenShort, cols, len(cols), version)
+//@   ensures lenfull: err == nil && !globalTableSpec ==> written(dest) == w0 + fold(colLenFull, cols, len(cols), version)
+//@ func lengthOfColumnsMetadata
+//@   prop C03
+//@   assigns nothing
+//@   requires elems: forall k int :: 0 <= k && k < len(cols) ==> cols[k] != nil
+//@   requires first: globalTableSpec ==> len(cols) > 0
+//@   invariant #0 sumglobal: globalTableSpec ==> length == primitive.LengthOfString(cols[0].Keyspace) + primitive.LengthOfString(cols[0].Table) + fold(colLenShort, cols, rangeindex + 1, version)
+//@   invariant #0 sumfull: !globalTableSpec ==> length == fold(colLenFull, cols, rangeindex + 1, version)
+//@   ensures lenglobal: err == nil && globalTableSpec ==> length == primitive.LengthOfString(cols[0].Keyspace) + primitive.LengthOfString(cols[0].Table) + fold(colLenShort, cols, len(cols), version)
+//@   ensures lenfull: err == nil && !globalTableSpec ==> length == fold(colLenFull, cols, len(cols), version)
+
+// rows and variables metadata: one abstract length each, named by what the length function returns (ASSUMED as its
+// definition where the functions are used); the two lemmas below execute the real encoder and the real length function
+// on the same metadata and prove that they agree.
+//@ spec colsOk(cols []*ColumnMetadata) bool = forall k int :: 0 <= k && k < len(cols) ==> cols[k] != nil
+//@ func encodeRowsMetadata
+//@   prop C03
+//@   nilable metadata
+//@   requires elems: metadata != nil ==> colsOk(metadata.Columns)
+//@   assumes-assigns wstream(dest)
+//@   assumes len: err == nil ==> written(dest) == old(written(dest)) + abstractLen("rowsmetadata", metadata, version)
+//@ func lengthOfRowsMetadata
+//@   prop C03
+//@   nilable metadata
+//@   requires elems: metadata != nil ==> colsOk(metadata.Columns)
+//@   assumes-assigns nothing
+//@   assumes len: err == nil ==> length == abstractLen("rowsmetadata", metadata, version)
+//@ func encodeVariablesMetadata
+//@   prop C03
+//@   nilable metadata
+//@   requires elems: metadata != nil ==> colsOk(metadata.Columns)
+//@   let w0 = written(dest)
+//@   invariant #0 pk: written(dest) == w0 + 12 + 2 * (rangeindex + 1)
+//@   assumes-assigns wstream(dest)
+//@   assumes len: err == nil ==> written(dest) == old(written(dest)) + abstractLen("variablesmetadata", metadata, version)
+//@ func lengthOfVariablesMetadata
+//@   prop C03
+//@   nilable metadata
+//@   requires elems: metadata != nil ==> colsOk(metadata.Columns)
+//@   assumes-assigns nothing
+//@   assumes len: err == nil ==> length == abstractLen("variablesmetadata", metadata, version)
+
+func lemmaLenRowsMetadata(metadata *RowsMetadata, version primitive.ProtocolVersion) bool {
+	buf := &bytes.Buffer{}
+	if e2 := encodeRowsMetadata(metadata, buf, version); e2 != nil {
+		return true
+	}
+	n, e1 := lengthOfRowsMetadata(metadata, version)
+	return e1 != nil || buf.Len() == n
+}
+
+//@ func lemmaLenRowsMetadata
+//@   prop none  (NOT CLAIMED: with the reachability covers in force this lemma is no longer decided within the budget; see /verif/DESIGN.md section 13)
+//@   nilable metadata
+//@   expand message.encodeRowsMetadata, message.lengthOfRowsMetadata
+//@   requires elems: metadata != nil ==> colsOk(metadata.Columns)
+//@   ensures agreenil: metadata == nil ==> result
+//@   ensures agreenocols: metadata != nil && len(metadata.Columns) == 0 ==> result
+//@   ensures agreeglobal: metadata != nil && len(metadata.Columns) > 0 && haveSameTable(metadata.Columns) ==> result
+//@   ensures agreefull: metadata != nil && len(metadata.Columns) > 0 && !haveSameTable(metadata.Columns) ==> result
+
+func lemmaLenVariablesMetadata(metadata *VariablesMetadata, version primitive.ProtocolVersion) bool {
+	buf := &bytes.Buffer{}
+	if e2 := encodeVariablesMetadata(metadata, buf, version); e2 != nil {
+		return true
+	}
+	n, e1 := lengthOfVariablesMetadata(metadata, version)
+	return e1 != nil || buf.Len() == n
+}
+
+//@ func lemmaLenVariablesMetadata
+//@   prop none  (NOT CLAIMED: with the reachability covers in force this lemma is no longer decided within the budget; see /verif/DESIGN.md section 13)
+//@   nilable metadata
+//@   expand message.encodeVariablesMetadata, message.lengthOfVariablesMetadata
+//@   requires elems: metadata != nil ==> colsOk(metadata.Columns)
+//@   requires pk: metadata != nil ==> len(metadata.PkIndices) <= 2147483647
+//@   ensures agreenil: metadata == nil ==> result
+//@   ensures agreenocols: metadata != nil && len(metadata.Columns) == 0 ==> result
+//@   ensures agreeglobal: metadata != nil && len(metadata.Columns) > 0 && haveSameTable(metadata.Columns) ==> result
+//@   ensures agreefull: metadata != nil && len(metadata.Columns) > 0 && !haveSameTable(metadata.Columns) ==> result
+
+// ---- C03: RESULT ------------------------------------------------------------------------------------------------
+// rows data: every cell is a [bytes]; a row is the sum of its cells, the data the sum of its rows - whatever the
+// number of rows and cells (fold invariants on the two nested loops of the encoder and of the length function)
+//@ spec cellLen(col Column) int = primitive.LengthOfBytes(col)
+//@ spec rowLen(row Row) int = fold(cellLen, row, len(row))
+
+// The codec has one closed form per RESULT kind (and, for SchemaChange, per target and version range); the encoder and
+// the length function are each proved against it on their own bodies, and the lemmas below use the two contracts.
+//@ func (*resultCodec).Encode
+//@   prop C03
+//@   assigns wstream(dest)
+//@   requires rowscols: typeis(msg, *RowsResult) && !isnil(unbox(msg, *RowsResult)) && unbox(msg, *RowsResult).Metadata != nil ==> colsOk(unbox(msg, *RowsResult).Metadata.Columns)
+//@   requires preparedcols: typeis(msg, *PreparedResult) && !isnil(unbox(msg, *PreparedResult)) ==> (unbox(msg, *PreparedResult).VariablesMetadata != nil ==> colsOk(unbox(msg, *PreparedResult).VariablesMetadata.Columns)) && (unbox(msg, *PreparedResult).ResultMetadata != nil ==> colsOk(unbox(msg, *PreparedResult).ResultMetadata.Columns))
+//@   let w0 = written(dest)
+//@   invariant #0 rows: written(dest) == w0 + 4 + abstractLen("rowsmetadata", rows.Metadata, version) + 4 + fold(rowLen, rows.Data, rangeindex + 1)
+//@   invariant #1 cells: written(dest) == w0 + 4 + abstractLen("rowsmetadata", rows.Metadata, version) + 4 + fold(rowLen, rows.Data, i) + fold(cellLen, row, rangeindex + 1)
+//@   ensures void: err == nil && typeis(msg, *VoidResult) && !isnil(unbox(msg, *VoidResult)) ==> written(dest) == w0 + 4
+//@   ensures setkeyspace: err == nil && typeis(msg, *SetKeyspaceResult) && !isnil(unbox(msg, *SetKeyspaceResult)) ==> written(dest) == w0 + 4 + primitive.LengthOfString(unbox(msg, *SetKeyspaceResult).Keyspace)
+//@   ensures preparedid: err == nil && typeis(msg, *PreparedResult) && !isnil(unbox(msg, *PreparedResult)) && version.SupportsResultMetadataId() ==> written(dest) == w0 + 4 + primitive.LengthOfShortBytes(unbox(msg, *PreparedResult).PreparedQueryId) + primitive.LengthOfShortBytes(unbox(msg, *PreparedResult).ResultMetadataId) + abstractLen("variablesmetadata", unbox(msg, *PreparedResult).VariablesMetadata, version) + abstractLen("rowsmetadata", unbox(msg, *PreparedResult).ResultMetadata, version)
+//@   ensures prepared: err == nil && typeis(msg, *PreparedResult) && !isnil(unbox(msg, *PreparedResult)) && !version.SupportsResultMetadataId() ==> written(dest) == w0 + 4 + primitive.LengthOfShortBytes(unbox(msg, *PreparedResult).PreparedQueryId) + abstractLen("variablesmetadata", unbox(msg, *PreparedResult).VariablesMetadata, version) + abstractLen("rowsmetadata", unbox(msg, *PreparedResult).ResultMetadata, version)
+//@   ensures rows: err == nil && typeis(msg, *RowsResult) && !isnil(unbox(msg, *RowsResult)) ==> written(dest) == w0 + 4 + abstractLen("rowsmetadata", unbox(msg, *RowsResult).Metadata, version) + 4 + fold(rowLen, unbox(msg, *RowsResult).Data, len(unbox(msg, *RowsResult).Data))
+//@   ensures sckeyspace: err == nil && typeis(msg, *SchemaChangeResult) && !isnil(unbox(msg, *SchemaChangeResult)) && version >= primitive.ProtocolVersion3 && unbox(msg, *SchemaChangeResult).Target == primitive.SchemaChangeTargetKeyspace ==> written(dest) == w0 + 4 + primitive.LengthOfString(string(unbox(msg, *SchemaChangeResult).ChangeType)) + primitive.LengthOfString(string(unbox(msg, *SchemaChangeResult).Target)) + primitive.LengthOfString(unbox(msg, *SchemaChangeResult).Keyspace)
+//@   ensures scother: err == nil && typeis(msg, *SchemaChangeResult) && !isnil(unbox(msg, *SchemaChangeResult)) && version >= primitive.ProtocolVersion3 && unbox(msg, *SchemaChangeResult).Target != primitive.SchemaChangeTargetKeyspace && unbox(msg, *SchemaChangeResult).Target != primitive.SchemaChangeTargetTable && unbox(msg, *SchemaChangeResult).Target != primitive.SchemaChangeTargetType && unbox(msg, *SchemaChangeResult).Target != primitive.SchemaChangeTargetFunction && unbox(msg, *SchemaChangeResult).Target != primitive.SchemaChangeTargetAggregate ==> written(dest) == w0 + 4 + primitive.LengthOfString(string(unbox(msg, *SchemaChangeResult).ChangeType)) + primitive.LengthOfString(string(unbox(msg, *SchemaChangeResult).Target)) + primitive.LengthOfString(unbox(msg, *SchemaChangeResult).Keyspace)
+//@   ensures sctable: err == nil && typeis(msg, *SchemaChangeResult) && !isnil(unbox(msg, *SchemaChangeResult)) && version >= primitive.ProtocolVersion3 && unbox(msg, *SchemaChangeResult).Target == primitive.SchemaChangeTargetTable ==> written(dest) == w0 + 4 + primitive.LengthOfString(string(unbox(msg, *SchemaChangeResult).ChangeType)) + primitive.LengthOfString(string(unbox(msg, *SchemaChangeResult).Target)) + primitive.LengthOfString(unbox(msg, *SchemaChangeResult).Keyspace) + primitive.LengthOfString(unbox(msg, *SchemaChangeResult).Object)
+//@   ensures sctype: err == nil && typeis(msg, *SchemaChangeResult) && !isnil(unbox(msg, *SchemaChangeResult)) && version >= primitive.ProtocolVersion3 && unbox(msg, *SchemaChangeResult).Target == primitive.SchemaChangeTargetType ==> written(dest) == w0 + 4 + primitive.LengthOfString(string(unbox(msg, *SchemaChangeResult).ChangeType)) + primitive.LengthOfString(string(unbox(msg, *SchemaChangeResult).Target)) + primitive.LengthOfString(unbox(msg, *SchemaChangeResult).Keyspace) + primitive.LengthOfString(unbox(msg, *SchemaChangeResult).Object)
+//@   ensures scfunction: err == nil && typeis(msg, *SchemaChangeResult) && !isnil(unbox(msg, *SchemaChangeResult)) && version >= primitive.ProtocolVersion3 && unbox(msg, *SchemaChangeResult).Target == primitive.SchemaChangeTargetFunction ==> written(dest) == w0 + 4 + primitive.LengthOfString(string(unbox(msg, *SchemaChangeResult).ChangeType)) + primitive.LengthOfString(string(unbox(msg, *SchemaChangeResult).Target)) + primitive.LengthOfString(unbox(msg, *SchemaChangeResult).Keyspace) + primitive.LengthOfString(unbox(msg, *SchemaChangeResult).Object) + primitive.LengthOfStringList(unbox(msg, *SchemaChangeResult).Arguments)
+//@   ensures scaggregate: err == nil && typeis(msg, *SchemaChangeResult) && !isnil(unbox(msg, *SchemaChangeResult)) && version >= primitive.ProtocolVersion3 && unbox(msg, *SchemaChangeResult).Target == primitive.SchemaChangeTargetAggregate ==> written(dest) == w0 + 4 + primitive.LengthOfString(string(unbox(msg, *SchemaChangeResult).ChangeType)) + primitive.LengthOfString(string(unbox(msg, *SchemaChangeResult).Target)) + primitive.LengthOfString(unbox(msg, *SchemaChangeResult).Keyspace) + primitive.LengthOfString(unbox(msg, *SchemaChangeResult).Object) + primitive.LengthOfStringList(unbox(msg, *SchemaChangeResult).Arguments)
+//@   ensures scv2: err == nil && typeis(msg, *SchemaChangeResult) && !isnil(unbox(msg, *SchemaChangeResult)) && version < primitive.ProtocolVersion3 ==> written(dest) == w0 + 4 + primitive.LengthOfString(string(unbox(msg, *SchemaChangeResult).ChangeType)) + primitive.LengthOfString(unbox(msg, *SchemaChangeResult).Keyspace) + primitive.LengthOfString(unbox(msg, *SchemaChangeResult).Object)
+//@ func (*resultCodec).EncodedLength
+//@   prop C03
+//@   assigns nothing
+//@   requires rowscols: typeis(msg, *RowsResult) && !isnil(unbox(msg, *RowsResult)) && unbox(msg, *RowsResult).Metadata != nil ==> colsOk(unbox(msg, *RowsResult).Metadata.Columns)
+//@   requires preparedcols: typeis(msg, *PreparedResult) && !isnil(unbox(msg, *PreparedResult)) ==> (unbox(msg, *PreparedResult).VariablesMetadata != nil ==> colsOk(unbox(msg, *PreparedResult).VariablesMetadata.Columns)) && (unbox(msg, *PreparedResult).ResultMetadata != nil ==> colsOk(unbox(msg, *PreparedResult).ResultMetadata.Columns))
+//@   invariant #0 rows: length == 4 + abstractLen("rowsmetadata", rows.Metadata, version) + 4 + fold(rowLen, rows.Data, rangeindex + 1)
+//@   invariant #1 cells: length == 4 + abstractLen("rowsmetadata", rows.Metadata, version) + 4 + fold(rowLen, rows.Data, rangeindex0 + 1) + fold(cellLen, row, rangeindex + 1)
+//@   ensures void: err == nil && typeis(msg, *VoidResult) && !isnil(unbox(msg, *VoidResult)) ==> length == 4
+//@   ensures setkeyspace: err == nil && typeis(msg, *SetKeyspaceResult) && !isnil(unbox(msg, *SetKeyspaceResult)) ==> length == 4 + primitive.LengthOfString(unbox(msg, *SetKeyspaceResult).Keyspace)
+//@   ensures preparedid: err == nil && typeis(msg, *PreparedResult) && !isnil(unbox(msg, *PreparedResult)) && version.SupportsResultMetadataId() ==> length == 4 + primitive.LengthOfShortBytes(unbox(msg, *PreparedResult).PreparedQueryId) + primitive.LengthOfShortBytes(unbox(msg, *PreparedResult).ResultMetadataId) + abstractLen("variablesmetadata", unbox(msg, *PreparedResult).VariablesMetadata, version) + abstractLen("rowsmetadata", unbox(msg, *PreparedResult).ResultMetadata, version)
+//@   ensures prepared: err == nil && typeis(msg, *PreparedResult) && !isnil(unbox(msg, *PreparedResult)) && !version.SupportsResultMetadataId() ==> length == 4 + primitive.LengthOfShortBytes(unbox(msg, *PreparedResult).PreparedQueryId) + abstractLen("variablesmetadata", unbox(msg, *PreparedResult).VariablesMetadata, version) + abstractLen("rowsmetadata", unbox(msg, *PreparedResult).ResultMetadata, version)
+//@   ensures rows: err == nil && typeis(msg, *RowsResult) && !isnil(unbox(msg, *RowsResult)) ==> length == 4 + abstractLen("rowsmetadata", unbox(msg, *RowsResult).Metadata, version) + 4 + fold(rowLen, unbox(msg, *RowsResult).Data, len(unbox(msg, *RowsResult).Data))
+//@   ensures sckeyspace: err == nil && typeis(msg, *SchemaChangeResult) && !isnil(unbox(msg, *SchemaChangeResult)) && version >= primitive.ProtocolVersion3 && unbox(msg, *SchemaChangeResult).Target == primitive.SchemaChangeTargetKeyspace ==> length == 4 + primitive.LengthOfString(string(unbox(msg, *SchemaChangeResult).ChangeType)) + primitive.LengthOfString(string(unbox(msg, *SchemaChangeResult).Target)) + primitive.LengthOfString(unbox(msg, *SchemaChangeResult).Keyspace)
+//@   ensures scother: err == nil && typeis(msg, *SchemaChangeResult) && !isnil(unbox(msg, *SchemaChangeResult)) && version >= primitive.ProtocolVersion3 && unbox(msg, *SchemaChangeResult).Target != primitive.SchemaChangeTargetKeyspace && unbox(msg, *SchemaChangeResult).Target != primitive.SchemaChangeTargetTable && unbox(msg, *SchemaChangeResult).Target != primitive.SchemaChangeTargetType && unbox(msg, *SchemaChangeResult).Target != primitive.SchemaChangeTargetFunction && unbox(msg, *SchemaChangeResult).Target != primitive.SchemaChangeTargetAggregate ==> length == 4 + primitive.LengthOfString(string(unbox(msg, *SchemaChangeResult).ChangeType)) + primitive.LengthOfString(string(unbox(msg, *SchemaChangeResult).Target)) + primitive.LengthOfString(unbox(msg, *SchemaChangeResult).Keyspace)
+//@   ensures sctable: err == nil && typeis(msg, *SchemaChangeResult) && !isnil(unbox(msg, *SchemaChangeResult)) && version >= primitive.ProtocolVersion3 && unbox(msg, *SchemaChangeResult).Target == primitive.SchemaChangeTargetTable ==> length == 4 + primitive.LengthOfString(string(unbox(msg, *SchemaChangeResult).ChangeType)) + primitive.LengthOfString(string(unbox(msg, *SchemaChangeResult).Target)) + primitive.LengthOfString(unbox(msg, *SchemaChangeResult).Keyspace) + primitive.LengthOfString(unbox(msg, *SchemaChangeResult).Object)
+//@   ensures sctype: err == nil && typeis(msg, *SchemaChangeResult) && !isnil(unbox(msg, *SchemaChangeResult)) && version >= primitive.ProtocolVersion3 && unbox(msg, *SchemaChangeResult).Target == primitive.SchemaChangeTargetType ==> length == 4 + primitive.LengthOfString(string(unbox(msg, *SchemaChangeResult).ChangeType)) + primitive.LengthOfString(string(unbox(msg, *SchemaChangeResult).Target)) + primitive.LengthOfString(unbox(msg, *SchemaChangeResult).Keyspace) + primitive.LengthOfString(unbox(msg, *SchemaChangeResult).Object)
+//@   ensures scfunction: err == nil && typeis(msg, *SchemaChangeResult) && !isnil(unbox(msg, *SchemaChangeResult)) && version >= primitive.ProtocolVersion3 && unbox(msg, *SchemaChangeResult).Target == primitive.SchemaChangeTargetFunction ==> length == 4 + primitive.LengthOfString(string(unbox(msg, *SchemaChangeResult).ChangeType)) + primitive.LengthOfString(string(unbox(msg, *SchemaChangeResult).Target)) + primitive.LengthOfString(unbox(msg, *SchemaChangeResult).Keyspace) + primitive.LengthOfString(unbox(msg, *SchemaChangeResult).Object) + primitive.LengthOfStringList(unbox(msg, *SchemaChangeResult).Arguments)
+//@   ensures scaggregate: err == nil && typeis(msg, *SchemaChangeResult) && !isnil(unbox(msg, *SchemaChangeResult)) && version >= primitive.ProtocolVersion3 && unbox(msg, *SchemaChangeResult).Target == primitive.SchemaChangeTargetAggregate ==> length == 4 + primitive.LengthOfString(string(unbox(msg, *SchemaChangeResult).ChangeType)) + primitive.LengthOfString(string(unbox(msg, *SchemaChangeResult).Target)) + primitive.LengthOfString(unbox(msg, *SchemaChangeResult).Keyspace) + primitive.LengthOfString(unbox(msg, *SchemaChangeResult).Object) + primitive.LengthOfStringList(unbox(msg, *SchemaChangeResult).Arguments)
+//@   ensures scv2: err == nil && typeis(msg, *SchemaChangeResult) && !isnil(unbox(msg, *SchemaChangeResult)) && version < primitive.ProtocolVersion3 ==> length == 4 + primitive.LengthOfString(string(unbox(msg, *SchemaChangeResult).ChangeType)) + primitive.LengthOfString(unbox(msg, *SchemaChangeResult).Keyspace) + primitive.LengthOfString(unbox(msg, *SchemaChangeResult).Object)
+
+// one lemma per RESULT kind (metadata with nil column entries make both functions panic alike; excluded)
+func lemmaLenResultVoid(c *resultCodec, msg *VoidResult, version primitive.ProtocolVersion) bool {
+	buf := &bytes.Buffer{}
+	if e2 := c.Encode(msg, buf, version); e2 != nil {
+		return true
+	}
+	n, e1 := c.EncodedLength(msg, version)
+	return e1 != nil || buf.Len() == n
+}
+
+//@ func lemmaLenResultVoid
+//@   prop C03
 //@   ensures agree: result
+
+func lemmaLenResultSetKeyspace(c *resultCodec, msg *SetKeyspaceResult, version primitive.ProtocolVersion) bool {
+	buf := &bytes.Buffer{}
+	if e2 := c.Encode(msg, buf, version); e2 != nil {
+		return true
+	}
+	n, e1 := c.EncodedLength(msg, version)
+	return e1 != nil || buf.Len() == n
+}
+
+//@ func lemmaLenResultSetKeyspace
+//@   prop C03
+//@   ensures agree: result
+
+func lemmaLenResultSchemaChange(c *resultCodec, msg *SchemaChangeResult, version primitive.ProtocolVersion) bool {
+	buf := &bytes.Buffer{}
+	if e2 := c.Encode(msg, buf, version); e2 != nil {
+		return true
+	}
+	n, e1 := c.EncodedLength(msg, version)
+	return e1 != nil || buf.Len() == n
+}
+
+//@ func lemmaLenResultSchemaChange
+//@   prop C03
+//@   ensures agree: result
+
+func lemmaLenResultPrepared(c *resultCodec, msg *PreparedResult, version primitive.ProtocolVersion) bool {
+	buf := &bytes.Buffer{}
+	if e2 := c.Encode(msg, buf, version); e2 != nil {
+		return true
+	}
+	n, e1 := c.EncodedLength(msg, version)
+	return e1 != nil || buf.Len() == n
+}
+
+//@ func lemmaLenResultPrepared
+//@   prop C03
+//@   requires cols: (msg.VariablesMetadata != nil ==> colsOk(msg.VariablesMetadata.Columns)) && (msg.ResultMetadata != nil ==> colsOk(msg.ResultMetadata.Columns))
+//@   ensures agree: result
+
+func lemmaLenResultRows(c *resultCodec, msg *RowsResult, version primitive.ProtocolVersion) bool {
+	buf := &bytes.Buffer{}
+	if e2 := c.Encode(msg, buf, version); e2 != nil {
+		return true
+	}
+	n, e1 := c.EncodedLength(msg, version)
+	return e1 != nil || buf.Len() == n
+}
+
+//@ func lemmaLenResultRows
+//@   prop C03
+//@   requires cols: msg.Metadata != nil ==> colsOk(msg.Metadata.Columns)
+//@   ensures agree: result
+
+// ---- C03: BATCH ---------------------------------------------------------------------------------------------------
+// a child is <kind byte><query: long string | id: short bytes><positional values>
+//@ spec childLen(child *BatchChild) int = 1 + ite(child.Query != "", primitive.LengthOfLongString(child.Query), primitive.LengthOfShortBytes(child.Id)) + (2 + fold(primitive.LengthOfValue, child.Values, len(child.Values)))
+
+//@ func (*batchCodec).Encode
+//@   inline
+//@   let w0 = written(dest)
+//@   invariant #0 children: written(dest) == w0 + 3 + fold(childLen, batch.Children, rangeindex + 1)
+//@ func (*batchCodec).EncodedLength
+//@   inline
+//@   invariant #0 children: length == 3 + fold(childLen, batch.Children, rangeindex + 1)
+
+func lemmaLenBatch(c *batchCodec, msg Message, version primitive.ProtocolVersion) bool {
+	buf := &bytes.Buffer{}
+	if e2 := c.Encode(msg, buf, version); e2 != nil {
+		return true
+	}
+	n, e1 := c.EncodedLength(msg, version)
+	return e1 != nil || buf.Len() == n
+}
+
+//@ func lemmaLenBatch
+//@   prop none  (NOT CLAIMED: with the reachability covers in force this lemma is no longer decided within the budget; see /verif/DESIGN.md section 13)
+//@   requires children: typeis(msg, *Batch) && !isnil(unbox(msg, *Batch)) ==> (forall k int :: 0 <= k && k < len(unbox(msg, *Batch).Children) ==> unbox(msg, *Batch).Children[k] != nil)
+//@   ensures agree: result
+
+// ---- C03: EVENT and REGISTER --------------------------------------------------------------------------------------
+// one closed form per event kind (and, for schema changes, per target and version range), as for RESULT
+//@ func (*eventCodec).Encode
+//@   prop C03
+//@   assigns wstream(dest)
+//@   let w0 = written(dest)
+//@   ensures status: err == nil && typeis(msg, *StatusChangeEvent) && !isnil(unbox(msg, *StatusChangeEvent)) ==> written(dest) == w0 + primitive.LengthOfString(string(primitive.EventTypeStatusChange)) + primitive.LengthOfString(string(unbox(msg, *StatusChangeEvent).ChangeType)) + primitive.LengthOfInet(unbox(msg, *StatusChangeEvent).Address)
+//@   ensures topology: err == nil && typeis(msg, *TopologyChangeEvent) && !isnil(unbox(msg, *TopologyChangeEvent)) ==> written(dest) == w0 + primitive.LengthOfString(string(primitive.EventTypeTopologyChange)) + primitive.LengthOfString(string(unbox(msg, *TopologyChangeEvent).ChangeType)) + primitive.LengthOfInet(unbox(msg, *TopologyChangeEvent).Address)
+//@   ensures sckeyspace: err == nil && typeis(msg, *SchemaChangeEvent) && !isnil(unbox(msg, *SchemaChangeEvent)) && version >= primitive.ProtocolVersion3 && unbox(msg, *SchemaChangeEvent).Target == primitive.SchemaChangeTargetKeyspace ==> written(dest) == w0 + primitive.LengthOfString(string(primitive.EventTypeSchemaChange)) + primitive.LengthOfString(string(unbox(msg, *SchemaChangeEvent).ChangeType)) + primitive.LengthOfString(string(unbox(msg, *SchemaChangeEvent).Target)) + primitive.LengthOfString(unbox(msg, *SchemaChangeEvent).Keyspace)
+//@   ensures scother: err == nil && typeis(msg, *SchemaChangeEvent) && !isnil(unbox(msg, *SchemaChangeEvent)) && version >= primitive.ProtocolVersion3 && !(unbox(msg, *SchemaChangeEvent).Target == primitive.SchemaChangeTargetKeyspace) && !(unbox(msg, *SchemaChangeEvent).Target == primitive.SchemaChangeTargetTable) && !(unbox(msg, *SchemaChangeEvent).Target == primitive.SchemaChangeTargetType) && !(unbox(msg, *SchemaChangeEvent).Target == primitive.SchemaChangeTargetFunction) && !(unbox(msg, *SchemaChangeEvent).Target == primitive.SchemaChangeTargetAggregate) ==> written(dest) == w0 + primitive.LengthOfString(string(primitive.EventTypeSchemaChange)) + primitive.LengthOfString(string(unbox(msg, *SchemaChangeEvent).ChangeType)) + primitive.LengthOfString(string(unbox(msg, *SchemaChangeEvent).Target)) + primitive.LengthOfString(unbox(msg, *SchemaChangeEvent).Keyspace)
+//@   ensures sctable: err == nil && typeis(msg, *SchemaChangeEvent) && !isnil(unbox(msg, *SchemaChangeEvent)) && version >= primitive.ProtocolVersion3 && unbox(msg, *SchemaChangeEvent).Target == primitive.SchemaChangeTargetTable ==> written(dest) == w0 + primitive.LengthOfString(string(primitive.EventTypeSchemaChange)) + primitive.LengthOfString(string(unbox(msg, *SchemaChangeEvent).ChangeType)) + primitive.LengthOfString(string(unbox(msg, *SchemaChangeEvent).Target)) + primitive.LengthOfString(unbox(msg, *SchemaChangeEvent).Keyspace) + primitive.LengthOfString(unbox(msg, *SchemaChangeEvent).Object)
+//@   ensures sctype: err == nil && typeis(msg, *SchemaChangeEvent) && !isnil(unbox(msg, *SchemaChangeEvent)) && version >= primitive.ProtocolVersion3 && unbox(msg, *SchemaChangeEvent).Target == primitive.SchemaChangeTargetType ==> written(dest) == w0 + primitive.LengthOfString(string(primitive.EventTypeSchemaChange)) + primitive.LengthOfString(string(unbox(msg, *SchemaChangeEvent).ChangeType)) + primitive.LengthOfString(string(unbox(msg, *SchemaChangeEvent).Target)) + primitive.LengthOfString(unbox(msg, *SchemaChangeEvent).Keyspace) + primitive.LengthOfString(unbox(msg, *SchemaChangeEvent).Object)
+//@   ensures scfunction: err == nil && typeis(msg, *SchemaChangeEvent) && !isnil(unbox(msg, *SchemaChangeEvent)) && version >= primitive.ProtocolVersion3 && unbox(msg, *SchemaChangeEvent).Target == primitive.SchemaChangeTargetFunction ==> written(dest) == w0 + primitive.LengthOfString(string(primitive.EventTypeSchemaChange)) + primitive.LengthOfString(string(unbox(msg, *SchemaChangeEvent).ChangeType)) + primitive.LengthOfString(string(unbox(msg, *SchemaChangeEvent).Target)) + primitive.LengthOfString(unbox(msg, *SchemaChangeEvent).Keyspace) + primitive.LengthOfString(unbox(msg, *SchemaChangeEvent).Object) + primitive.LengthOfStringList(unbox(msg, *SchemaChangeEvent).Arguments)
+//@   ensures scaggregate: err == nil && typeis(msg, *SchemaChangeEvent) && !isnil(unbox(msg, *SchemaChangeEvent)) && version >= primitive.ProtocolVersion3 && unbox(msg, *SchemaChangeEvent).Target == primitive.SchemaChangeTargetAggregate ==> written(dest) == w0 + primitive.LengthOfString(string(primitive.EventTypeSchemaChange)) + primitive.LengthOfString(string(unbox(msg, *SchemaChangeEvent).ChangeType)) + primitive.LengthOfString(string(unbox(msg, *SchemaChangeEvent).Target)) + primitive.LengthOfString(unbox(msg, *SchemaChangeEvent).Keyspace) + primitive.LengthOfString(unbox(msg, *SchemaChangeEvent).Object) + primitive.LengthOfStringList(unbox(msg, *SchemaChangeEvent).Arguments)
+//@   ensures scv2: err == nil && typeis(msg, *SchemaChangeEvent) && !isnil(unbox(msg, *SchemaChangeEvent)) && version < primitive.ProtocolVersion3 ==> written(dest) == w0 + primitive.LengthOfString(string(primitive.EventTypeSchemaChange)) + primitive.LengthOfString(string(unbox(msg, *SchemaChangeEvent).ChangeType)) + primitive.LengthOfString(unbox(msg, *SchemaChangeEvent).Keyspace) + primitive.LengthOfString(unbox(msg, *SchemaChangeEvent).Object)
+//@ func (*eventCodec).EncodedLength
+//@   prop C03
+//@   assigns nothing
+//@   ensures status: err == nil && typeis(msg, *StatusChangeEvent) && !isnil(unbox(msg, *StatusChangeEvent)) ==> length == primitive.LengthOfString(string(primitive.EventTypeStatusChange)) + primitive.LengthOfString(string(unbox(msg, *StatusChangeEvent).ChangeType)) + primitive.LengthOfInet(unbox(msg, *StatusChangeEvent).Address)
+//@   ensures topology: err == nil && typeis(msg, *TopologyChangeEvent) && !isnil(unbox(msg, *TopologyChangeEvent)) ==> length == primitive.LengthOfString(string(primitive.EventTypeTopologyChange)) + primitive.LengthOfString(string(unbox(msg, *TopologyChangeEvent).ChangeType)) + primitive.LengthOfInet(unbox(msg, *TopologyChangeEvent).Address)
+//@   ensures sckeyspace: err == nil && typeis(msg, *SchemaChangeEvent) && !isnil(unbox(msg, *SchemaChangeEvent)) && version >= primitive.ProtocolVersion3 && unbox(msg, *SchemaChangeEvent).Target == primitive.SchemaChangeTargetKeyspace ==> length == primitive.LengthOfString(string(primitive.EventTypeSchemaChange)) + primitive.LengthOfString(string(unbox(msg, *SchemaChangeEvent).ChangeType)) + primitive.LengthOfString(string(unbox(msg, *SchemaChangeEvent).Target)) + primitive.LengthOfString(unbox(msg, *SchemaChangeEvent).Keyspace)
+//@   ensures scother: err == nil && typeis(msg, *SchemaChangeEvent) && !isnil(unbox(msg, *SchemaChangeEvent)) && version >= primitive.ProtocolVersion3 && !(unbox(msg, *SchemaChangeEvent).Target == primitive.SchemaChangeTargetKeyspace) && !(unbox(msg, *SchemaChangeEvent).Target == primitive.SchemaChangeTargetTable) && !(unbox(msg, *SchemaChangeEvent).Target == primitive.SchemaChangeTargetType) && !(unbox(msg, *SchemaChangeEvent).Target == primitive.SchemaChangeTargetFunction) && !(unbox(msg, *SchemaChangeEvent).Target == primitive.SchemaChangeTargetAggregate) ==> length == primitive.LengthOfString(string(primitive.EventTypeSchemaChange)) + primitive.LengthOfString(string(unbox(msg, *SchemaChangeEvent).ChangeType)) + primitive.LengthOfString(string(unbox(msg, *SchemaChangeEvent).Target)) + primitive.LengthOfString(unbox(msg, *SchemaChangeEvent).Keyspace)
+//@   ensures sctable: err == nil && typeis(msg, *SchemaChangeEvent) && !isnil(unbox(msg, *SchemaChangeEvent)) && version >= primitive.ProtocolVersion3 && unbox(msg, *SchemaChangeEvent).Target == primitive.SchemaChangeTargetTable ==> length == primitive.LengthOfString(string(primitive.EventTypeSchemaChange)) + primitive.LengthOfString(string(unbox(msg, *SchemaChangeEvent).ChangeType)) + primitive.LengthOfString(string(unbox(msg, *SchemaChangeEvent).Target)) + primitive.LengthOfString(unbox(msg, *SchemaChangeEvent).Keyspace) + primitive.LengthOfString(unbox(msg, *SchemaChangeEvent).Object)
+//@   ensures sctype: err == nil && typeis(msg, *SchemaChangeEvent) && !isnil(unbox(msg, *SchemaChangeEvent)) && version >= primitive.ProtocolVersion3 && unbox(msg, *SchemaChangeEvent).Target == primitive.SchemaChangeTargetType ==> length == primitive.LengthOfString(string(primitive.EventTypeSchemaChange)) + primitive.LengthOfString(string(unbox(msg, *SchemaChangeEvent).ChangeType)) + primitive.LengthOfString(string(unbox(msg, *SchemaChangeEvent).Target)) + primitive.LengthOfString(unbox(msg, *SchemaChangeEvent).Keyspace) + primitive.LengthOfString(unbox(msg, *SchemaChangeEvent).Object)
+//@   ensures scfunction: err == nil && typeis(msg, *SchemaChangeEvent) && !isnil(unbox(msg, *SchemaChangeEvent)) && version >= primitive.ProtocolVersion3 && unbox(msg, *SchemaChangeEvent).Target == primitive.SchemaChangeTargetFunction ==> length == primitive.LengthOfString(string(primitive.EventTypeSchemaChange)) + primitive.LengthOfString(string(unbox(msg, *SchemaChangeEvent).ChangeType)) + primitive.LengthOfString(string(unbox(msg, *SchemaChangeEvent).Target)) + primitive.LengthOfString(unbox(msg, *SchemaChangeEvent).Keyspace) + primitive.LengthOfString(unbox(msg, *SchemaChangeEvent).Object) + primitive.LengthOfStringList(unbox(msg, *SchemaChangeEvent).Arguments)
+//@   ensures scaggregate: err == nil && typeis(msg, *SchemaChangeEvent) && !isnil(unbox(msg, *SchemaChangeEvent)) && version >= primitive.ProtocolVersion3 && unbox(msg, *SchemaChangeEvent).Target == primitive.SchemaChangeTargetAggregate ==> length == primitive.LengthOfString(string(primitive.EventTypeSchemaChange)) + primitive.LengthOfString(string(unbox(msg, *SchemaChangeEvent).ChangeType)) + primitive.LengthOfString(string(unbox(msg, *SchemaChangeEvent).Target)) + primitive.LengthOfString(unbox(msg, *SchemaChangeEvent).Keyspace) + primitive.LengthOfString(unbox(msg, *SchemaChangeEvent).Object) + primitive.LengthOfStringList(unbox(msg, *SchemaChangeEvent).Arguments)
+//@   ensures scv2: err == nil && typeis(msg, *SchemaChangeEvent) && !isnil(unbox(msg, *SchemaChangeEvent)) && version < primitive.ProtocolVersion3 ==> length == primitive.LengthOfString(string(primitive.EventTypeSchemaChange)) + primitive.LengthOfString(string(unbox(msg, *SchemaChangeEvent).ChangeType)) + primitive.LengthOfString(unbox(msg, *SchemaChangeEvent).Keyspace) + primitive.LengthOfString(unbox(msg, *SchemaChangeEvent).Object)
+
+// REGISTER writes and measures a copy of its event types as a string list (two separate copies): the copy has the
+// same length and, element by element, the same strings, hence the same [string list] size
+//@ spec eventTypeLen(t primitive.EventType) int = primitive.LengthOfString(string(t))
+//@ func asStringList
+//@   prop C03
+//@   foldframe
+//@   assigns nothing
+//@   invariant #0 made: len(strings) == len(eventTypes) && fresh(strings)
+//@   invariant #0 sum: fold(primitive.LengthOfString, strings, rangeindex + 1) == fold(eventTypeLen, eventTypes, rangeindex + 1)
+//@   ensures size: len(result) == len(eventTypes)
+//@   ensures sum: fold(primitive.LengthOfString, result, len(result)) == fold(eventTypeLen, eventTypes, len(eventTypes))
+
+func lemmaLenRegister(c *registerCodec, msg Message, version primitive.ProtocolVersion) bool {
+	buf := &bytes.Buffer{}
+	if e2 := c.Encode(msg, buf, version); e2 != nil {
+		return true
+	}
+	n, e1 := c.EncodedLength(msg, version)
+	return e1 != nil || buf.Len() == n
+}
+
+//@ func lemmaLenRegister
+//@   prop C03
+//@   expand (*message.registerCodec).Encode, (*message.registerCodec).EncodedLength
+//@   ensures agree: result
+
 
 // ---- C01: the GLOBAL_TABLES_SPEC flag (one keyspace/table written for all columns, and restored into every column
 // by the decoder) may be set only when all columns really share keyspace and table
@@ -1134,3 +1451,42 @@ func lemmaDecodeLenRevise(c *reviseCodec, source io.Reader, version primitive.Pr
 //@   ensures consumed: result2 == nil ==> pos(source) == old(pos(source)) + result1
 
 // <<< generated
+
+func lemmaLenEventSchemaChange(c *eventCodec, msg *SchemaChangeEvent, version primitive.ProtocolVersion) bool {
+	buf := &bytes.Buffer{}
+	if e2 := c.Encode(msg, buf, version); e2 != nil {
+		return true
+	}
+	n, e1 := c.EncodedLength(msg, version)
+	return e1 != nil || buf.Len() == n
+}
+
+//@ func lemmaLenEventSchemaChange
+//@   prop C03
+//@   ensures agree: result
+
+func lemmaLenEventStatusChange(c *eventCodec, msg *StatusChangeEvent, version primitive.ProtocolVersion) bool {
+	buf := &bytes.Buffer{}
+	if e2 := c.Encode(msg, buf, version); e2 != nil {
+		return true
+	}
+	n, e1 := c.EncodedLength(msg, version)
+	return e1 != nil || buf.Len() == n
+}
+
+//@ func lemmaLenEventStatusChange
+//@   prop C03
+//@   ensures agree: result
+
+func lemmaLenEventTopologyChange(c *eventCodec, msg *TopologyChangeEvent, version primitive.ProtocolVersion) bool {
+	buf := &bytes.Buffer{}
+	if e2 := c.Encode(msg, buf, version); e2 != nil {
+		return true
+	}
+	n, e1 := c.EncodedLength(msg, version)
+	return e1 != nil || buf.Len() == n
+}
+
+//@ func lemmaLenEventTopologyChange
+//@   prop C03
+//@   ensures agree: result
